@@ -176,6 +176,11 @@ func replayViolation(id, name, why string, r *SolveResult, repo string) (string,
 	if err != nil {
 		return writeReplay(id, name, why, r, "no replay template for "+r.Func+" (inputs cannot be built in a unit test): no executable failing input"), false
 	}
+	for i := range inputs {
+		for k, v := range r.Syms {
+			inputs[i].Term = strings.ReplaceAll(inputs[i].Term, "$"+k, v)
+		}
+	}
 	var terms []string
 	for _, in := range inputs {
 		switch in.Kind {
